@@ -24,7 +24,7 @@ def rule_default(body, I, M):
     if o is not None and o != "ok":
         prop_ok = False
         why = "oracle: " + o
-    if i is not None and (i.startswith("CRASH") or i.startswith("HANG") or i.startswith("HARNESS-PANIC")):
+    if i is not None and (i.startswith("CRASH") or i.startswith("RACE-DETECTED") or i.startswith("HANG") or i.startswith("HARNESS-PANIC")):
         prop_ok = False
         why = "implementation " + i
     if not corr_ok and not why:
@@ -32,7 +32,7 @@ def rule_default(body, I, M):
     return dict(corr_ok=corr_ok, prop_ok=prop_ok, nontrivial=len(i or "") >= 2, bucket=(i or "?")[-1:], why=why)
 
 def _bad_impl(i):
-    return i is not None and (i.startswith("CRASH") or i.startswith("HANG") or i.startswith("HARNESS-PANIC") or i in ("MISSING", "NOTRUN"))
+    return i is not None and (i.startswith("CRASH") or i.startswith("RACE-DETECTED") or i.startswith("HANG") or i.startswith("HARNESS-PANIC") or i in ("MISSING", "NOTRUN"))
 
 def rule_cborenc(body, I, M):
     """C02: flags, write calls and the decoder round trip; S/SR present only for well-formed input."""
@@ -721,3 +721,40 @@ PROPS["C18"] = dict(
               "own machinery, all sharing the atlases (every entry kind) and read-only inputs, under several GOMAXPROCS settings, built "
               "with the Go race detector (halt on first report); every worker's result compared with sequential execution",
 )
+
+
+# ---- later strengthenings (merged after the first round of proofs) ----------------------------------------------------
+
+# C03: the float-text hypothesis is now a theorem
+PROPS["C03"]["theorems"] += ["Refmt.C03Float.floatTextOk", "Refmt.C03Float.enc_valid", "Refmt.C03Float.roundtrip"]
+PROPS["C03"]["extra_modules"] = PROPS["C03"].get("extra_modules", []) + ["RefmtProofs.Props.C03Float"]
+PROPS["C03"]["claim"] += (" UNCONDITIONAL since C03Float: FloatTextOk is proved (for every finite float the text written is a complete "
+    "RFC 8259 number and numTok types it: the shortest digits lie in the rounding interval, integral texts below 2^63, no overflow of the "
+    "correctly rounded parse), so enc_valid_statement and roundtrip_statement hold without hypothesis.")
+
+# C15: the decoder models ARE programs over the reader interface (no longer 'by construction')
+PROPS["C15"]["theorems"] += ["Refmt.C15Prog.cbor_is_client", "Refmt.C15Prog.json_is_client", "Refmt.C15Prog.cbor_decode_is_client",
+    "Refmt.C15Prog.json_decode_is_client", "Refmt.C15Prog.cbor_decode_sched_eq_cursor", "Refmt.C15Prog.json_decode_sched_eq_cursor",
+    "Refmt.C15Prog.cbor_decode_schedule_independent", "Refmt.C15Prog.json_decode_schedule_independent"]
+PROPS["C15"]["extra_modules"] = PROPS["C15"].get("extra_modules", []) + ["RefmtProofs.Props.C15Prog"]
+PROPS["C15"]["claim"] += (" Since C15Prog: both decoder models are proved equal to programs over the three reader operations (mirrors "
+    "of every model function, for every reader state incl. faults and push-back), hence decoding over the scheduled reader "
+    "(readerToScanner + ReadAtLeast under any legal chunking, empty reads, EOF-with-data) yields exactly the tokens, outcome, step "
+    "count and allocation count of the cursor-based decode, and any two schedules agree (…_decode_schedule_independent).")
+
+# C13 / C11 / C01: completeness on the whole domain
+_full = ["Refmt.C13Full.clone_equal_full", "Refmt.C13Full.complete_full_perm", "Refmt.C13Full.clone_full_rt", "Refmt.C13Full.structTy_fullTy",
+         "Refmt.C13Full.isU_side", "Refmt.C13Full.clone_equal_untyped_native"]
+PROPS["C13"]["theorems"] += ["Refmt.C13Full.complete_full_perm", "Refmt.C13Full.structTy_fullTy"]
+PROPS["C13"]["extra_modules"] = PROPS["C13"].get("extra_modules", []) + ["RefmtProofs.Props.C13Full"]
+PROPS["C13"]["claim"] += (" Since C13Full: completeness (every rendering the marshaller produces is accepted, completes on its last token "
+    "and reconstructs normV up to map entry order) holds on the whole domain fullTy: plain kinds, struct maps (tagged or not), keyed "
+    "unions, transforms (under the stated condition on the user functions), untyped slots holding native values or values of tagged "
+    "registered types, nested arbitrarily.")
+PROPS["C11"]["theorems"] += ["Refmt.C13Full.clone_equal_full", "Refmt.C13Full.clone_equal_untyped_native"]
+PROPS["C11"]["extra_modules"] = PROPS["C11"].get("extra_modules", []) + ["RefmtProofs.Props.C13Full"]
+PROPS["C11"]["claim"] += (" Since C13Full.clone_equal_full the equality half covers unions, transforms and untyped slots as well (fullTy).")
+PROPS["C01"]["theorems"] += ["Refmt.C01Full.roundtrip_full_cbor", "Refmt.C13Full.clone_equal_full"]
+PROPS["C01"]["extra_modules"] = PROPS["C01"].get("extra_modules", []) + ["RefmtProofs.Props.C01Full", "RefmtProofs.Props.C13Full"]
+PROPS["C01"]["claim"] += (" Since C01Full.roundtrip_full_cbor: for CBOR the full statement holds on the whole domain fullTy (structs, unions, "
+    "transforms, untyped slots, nested arbitrarily): Marshal to bytes then Unmarshal returns normV up to map entry order.")
